@@ -242,6 +242,7 @@ class HypCheck(object):
         self.budget = budget          # {'quick': (shards, n), 'thorough': ..}
         self.rule = rule
         self.exhaustive = False
+        self.isolated = False         # uses engine.run_isolated
 
     def tasks(self, tier, seed):
         shards, n = self.budget[tier]
@@ -268,6 +269,7 @@ class EnumCheck(object):
         self._bound = bound           # {'quick': str, 'thorough': str}
         self.run_case = run_case      # for --replay
         self.exhaustive = exhaustive
+        self.isolated = False
 
     def tasks(self, tier, seed):
         return [('enum', c, None) for c in self.chunks(tier, seed)]
@@ -326,46 +328,54 @@ def guarded(run, case, st):
                      '%s: %s' % (type(e).__name__, e), case)
 
 
+_fs_ctx = None
+
+
+def start_isolation_server():
+    """Start this process's forkserver on first use (every worker has its
+    own: a forkserver can only be used by the process that started it)."""
+    global _fs_ctx
+
+    if _fs_ctx is None:
+        _fs_ctx = multiprocessing.get_context('forkserver')
+        _fs_ctx.set_forkserver_preload(['dxv.isolated'])
+        from multiprocessing import forkserver
+        forkserver.ensure_running()
+
+    return _fs_ctx
+
+
 def run_isolated(run, case, st):
-    """Run ``run(case, st)`` in a forked child so that module- or
-    class-level state the library may keep does not leak between cases (and
-    a finding that depends on such state is reproducible from its case)."""
-    import pickle
-    r, w = os.pipe()
-    pid = os.fork()
+    """Run ``run(case, st)`` (a module-level function) in a pristine process:
+    a child of a forkserver that imported the library but never called it.
+    Module- or class-level state the library may keep therefore cannot leak
+    in from what this worker did before, and a finding that depends on such
+    state is reproducible from its case alone."""
+    ctx = start_isolation_server()
+    parent, child = ctx.Pipe(duplex=False)
+    proc = ctx.Process(target=_isolated_entry,
+                       args=(run.__module__, run.__qualname__, case, child))
+    # pool workers are daemonic and would be refused children; the helper
+    # is joined right below, so nothing outlives the case
+    me = multiprocessing.current_process()
+    was = me._config.get('daemon')
+    me._config['daemon'] = False
 
-    if pid == 0:
-        code = 0
+    try:
+        proc.start()
+    finally:
+        me._config['daemon'] = was
 
-        try:
-            os.close(r)
-            sub = Stats()
+    child.close()
 
-            try:
-                guarded(run, case, sub)
-                payload = ('ok', sub.buckets, dict(sub.classes),
-                           dict(sub.excluded))
-            except BaseException:
-                payload = ('error', traceback.format_exc(), {}, {})
+    try:
+        status, buckets, classes, excluded = parent.recv()
+    except EOFError:
+        proc.join()
+        raise sut.HarnessError('isolated case produced no result (exit %r)'
+                               % proc.exitcode)
 
-            with os.fdopen(w, 'wb') as fp:
-                pickle.dump(payload, fp)
-        except BaseException:
-            code = 1
-        finally:
-            os._exit(code)
-
-    os.close(w)
-
-    with os.fdopen(r, 'rb') as fp:
-        data = fp.read()
-
-    os.waitpid(pid, 0)
-
-    if not data:
-        raise sut.HarnessError('isolated case produced no result')
-
-    status, buckets, classes, excluded = pickle.loads(data)
+    proc.join()
 
     if status == 'error':
         raise sut.HarnessError('isolated case failed:\n%s' % buckets)
@@ -376,6 +386,11 @@ def run_isolated(run, case, st):
 
     st.classes.update(classes)
     st.excluded.update(excluded)
+
+
+def _isolated_entry(module, name, case, conn):
+    from dxv import isolated
+    isolated.main(module, name, case, conn)
 
 
 # ---------------------------------------------------------------------------
